@@ -722,6 +722,15 @@ func main() {
 				nw = 0 // a stream nobody ever writes to must still end when cancelled
 			}
 			c.CancelEarly = rng.Chance(20) || race
+			// hand-over rounds (stream sockets): many connections that each write once,
+			// leave an unterminated tail and close at once, all started together - a
+			// connection is being closed (its tail flushed) while others do their first
+			// reads; whatever per-connection resource is recycled shows here
+			handover := !race && !isDgram(kind) && kind != "fifo" && kind != "stdin" && round%5 == 2
+			if handover {
+				nw = 8 + rng.Intn(8)
+				c.CancelEarly = false
+			}
 			delays := make([][]time.Duration, nw)
 			for i := 0; i < nw; i++ {
 				closes := rng.Chance(70)
@@ -738,8 +747,14 @@ func main() {
 					tail = tail && nw == 1
 					closes = false
 				}
+				if handover {
+					closes, tail = true, true
+				}
 				w := wspec{Closes: closes}
 				chunks := genWriter(rng, i, whole, tail, nw == 1)
+				if handover {
+					chunks = []string{strings.Join(chunks, "")}
+				}
 				if !closes && tail && rng.Chance(70) {
 					for len(chunks) > 1 && !strings.Contains(chunks[len(chunks)-1], "\n") {
 						chunks[len(chunks)-2] += chunks[len(chunks)-1]
@@ -760,7 +775,7 @@ func main() {
 				c.Writers = append(c.Writers, w)
 				delays[i] = make([]time.Duration, len(w.Chunks))
 				for j := range delays[i] {
-					if rng.Chance(60) {
+					if !handover && rng.Chance(60) {
 						delays[i][j] = time.Duration(rng.Intn(300)) * time.Microsecond
 					}
 				}
